@@ -46,7 +46,7 @@ CLAIMED = {
             "inside it and only there, the lexer yields FENCE_OPEN / LITERAL_CONTENT / FENCE_CLOSE carrying exactly the content, tag and marker, with no receipt (C05_zone_lexes_verbatim); the strict "
             "reader returns the zone with exactly its content (C05_zone_read_verbatim); emit -> read -> emit is a fixed point exactly when the content is not the single empty line "
             "(C05_zone_fixed_point_partial, C05N1_canon_exact); flat lines after a zone are untouched (C05_zone_neighbours_untouched); at token level any number of zones and lines in any order "
-            "(C05_items_read). any number of keyed zones anywhere in a forest of lines and nested blocks (C05_ztree_zone_read_verbatim, C05_ztree_fixed_point_partial). PARTIAL: bare zones as block children, zones in lists/META and the tool routes are decided by zone-dense "
+            "(C05_items_read). any number of keyed zones anywhere in a forest of lines and nested blocks (C05_ztree_zone_read_verbatim, C05_ztree_fixed_point_partial). the same with bare zones as block children (C05_btree_zone_read_verbatim; guards: not directly after an empty sibling block, not directly under the envelope). PARTIAL: zones in lists/META and the tool routes are decided by zone-dense "
             "generated documents through 9 pipelines compared with the generator's model and by the model/implementation zone correspondence."),
     "C07": ("text", "Lean 4 proof (bijection between normalised tokens and normalisation receipts for every input; exact receipts of every alias spelling; canonical text has none) + receipt bijection search",
             "Theorems (every input text, both lexer modes): the normalisation receipts are, in order, exactly the normalised tokens with original text, replacement and position "
